@@ -57,9 +57,11 @@ def main():
     ap.add_argument("--thorough-on-miss", action="store_true")
     ap.add_argument("--name")
     ap.add_argument("--cxxstd", help="language standard the demonstration needs (default c++17)")
+    ap.add_argument("--demo-flag", action="append", default=[], help="extra compiler flag the demonstration needs (e.g. -DNDEBUG)")
     a = ap.parse_args()
     if a.cxxstd:
         CXXSTD[0] = "-std=" + a.cxxstd
+    CXXSTD.extend(a.demo_flag)
     k = a.name or os.path.basename(os.path.normpath(a.srcdir))
     patch = os.path.join(a.srcdir, "patch.diff")
     demos = [p for p in glob.glob(os.path.join(a.srcdir, "demo.*")) if p.endswith((".cpp", ".py", ".c"))]
